@@ -37,6 +37,7 @@ func init() {
 		Gen:        genC13,
 		Exec:       execC13,
 		QuickSecs:  60, ThoroughSecs: 900, RunsPerJob: 40,
+		HangSecs: 40,
 		Rule: "a run = make(artefact type, variant) followed by ONE slice of ONE fault class: " +
 			"trunc(slice) = every truncation length of the slice (torn write; incl. the empty and the 1- and 2-byte remnants); " +
 			"subst(slice) = every single-byte substitution at each offset of the slice with each value of {0x00, 0xFF, b^1, b^0x80, b+1, b-1, 0x80, 0x30} (bit rot); " +
